@@ -149,8 +149,11 @@ Definition room_valid (room : bytes) : bool :=
 Definition create_type : bytes := bs "m.room.create".
 
 (* unmarshal into eventV1 / eventV2 / eventV3 plus the room ID checks of the parser *)
+(* a room ID over the byte limit only does not stop parsing (notOnlyTooManyBytes): CheckFields
+   reports it, with the event *)
+Definition not_only_bytes (c : fclass) : fclass := match c with FPersist => FOk | c => c end.
 Definition room_class (room : bytes) : fclass :=
-  match id_class 33 room with
+  match not_only_bytes (id_class 33 room) with
   | FOk => if room_valid room then FOk else FErr
   | c => c
   end.
@@ -177,8 +180,9 @@ Definition parse_class (p : parser) (j : json) : fclass :=
               then
                 let is_create := bytes_eqb ty create_type &&
                                  match sk with Some [] => true | _ => false end in
-                if is_create || (match room with c :: _ => c =? 33 | [] => false end && room_valid room)
-                then FOk else FErr
+                if is_create then FOk
+                else if match room with c :: _ => c =? 33 | [] => false end && room_valid room
+                then not_only_bytes (len_class room) else FErr
               else FErr
           end
       | _, _, _, _, _ => FErr
@@ -195,6 +199,13 @@ Definition check_fields_class (ver : bytes) (p : parser) (j : json) : fclass :=
   let ty := match str_field (bs "type") j with Some ty => ty | None => [] end in
   let sk := match optstr_field (bs "state_key") j with Some (Some sk) => sk | _ => [] end in
   let sender := match str_field (bs "sender") j with Some s => s | None => [] end in
+  (* what RoomID() returns: derived from the event ID (44 bytes) for the create event of an eventV3 *)
+  let room := match p, str_field (bs "room_id") j with
+              | PV3, Some r => if bytes_eqb ty create_type && match optstr_field (bs "state_key") j with Some (Some []) => true | _ => false end
+                               then [] else r
+              | _, Some r => r
+              | _, None => []
+              end in
   if negb (match p with
            | PV1 => true                                   (* eventV1 builds fresh slices: never nil *)
            | PV2 => nonnil (bs "auth_events") && nonnil (bs "prev_events")
@@ -203,11 +214,15 @@ Definition check_fields_class (ver : bytes) (p : parser) (j : json) : fclass :=
   else if 65536 <? blen (canon_print j) then FTooLarge
   else if 255 <? rune_count ty then FTooLarge
   else if 255 <? rune_count sk then FTooLarge
+  (* the sender's code-point limit is not lenient: checked before the byte sizes (repair of F43) *)
+  else if 255 <? rune_count sender then FTooLarge
   else if 255 <? blen ty then FPersist
   else if 255 <? blen sk then FPersist
   (* pseudo IDs have no sigil or domain, but the length limits apply to them too *)
-  else if bytes_eqb ver pseudo_id_version then len_class sender
-  else id_class 64 sender.
+  else match (if bytes_eqb ver pseudo_id_version then len_class sender else id_class 64 sender) with
+       | FOk => len_class room            (* the byte size of the room ID, last (repair of F42) *)
+       | c => c
+       end.
 
 Definition check_fields (ver : bytes) (p : parser) (j : json) : bool :=
   match check_fields_class ver p j with FOk => true | _ => false end.
